@@ -558,3 +558,32 @@ def d7(ctx):
 
 
 RULES.append(d7)
+
+
+@rule("D8", doc="from_syntax of the leaf children (AppliedId, Slot) is the inverse of to_syntax: whatever it answers with is (a copy of) the element it was handed — never a constant such as AppliedId::null() chosen by looking at the element (`x.m.is_empty() => null()` drops the id of every closed child: to_syntax / from_syntax stop round-tripping and from_syntax stops being injective)", once=True)
+def d8(ctx):
+    crate = ctx.lib("default")
+    impls = lc_impls(crate)
+    n = 0
+    for ty in ("types::AppliedId", "slot::Slot"):
+        m = impls.get(ty, {})
+        b = m.get("from_syntax")
+        if b is None:
+            raise mir.AnchorMissing("LanguageChildren::from_syntax for " + ty)
+        pname = b.var_names.get(1) or "elems"
+        for sub in b.all_bodies():
+            for bi, si, s in sub.statements():
+                rv = s["rv"] if s["k"] == "assign" else None
+                if not rv or rv["k"] != "agg" or rv.get("variant") != "Some" or "Option" not in str(rv.get("adt", rv.get("name", ""))) + str(rv):
+                    continue
+                if sub.blocks[bi]["cleanup"] or not rv["ops"]:
+                    continue
+                r = sub.role_of_operand(rv["ops"][0])
+                n += 1
+                ctx.check(role_mentions_param(r, pname), "from-syntax-returns-what-it-read:" + ty.split("::")[-1], "%s::from_syntax answers with the element it was given" % ty,
+                          "%s::from_syntax can answer with %s, which does not come from the syntax elements it was given: to_syntax followed by from_syntax no longer returns the same child (and two different children read back as the same one)" % (ty, role_str(r)[:80]),
+                          where_of(sub, bi, s.get("line")))
+    ctx.floor("Some(..) answers of the leaf from_syntax impls", n, 2)
+
+
+RULES.append(d8)
